@@ -12,6 +12,7 @@ use ip::{
 };
 use netconf::message::{rpc::operation::Datastore, ReadError, ReadXml};
 use quick_xml::{
+    escape::unescape,
     events::{BytesStart, Event},
     name::{Namespace, ResolveResult},
     NsReader,
@@ -184,7 +185,8 @@ impl ReadXml for Maybe<Candidate> {
                 (ResolveResult::Bound(XNM), Event::Start(tag))
                     if tag.local_name().as_ref() == b"name" && name.is_none() =>
                 {
-                    name = Some(reader.read_text(tag.to_end().name()).map(Name::new)?);
+                    let text = reader.read_text(tag.to_end().name())?;
+                    name = Some(Name::new(unescape(&text).map_err(quick_xml::Error::from)?));
                 }
                 (ResolveResult::Bound(XNM), Event::Start(tag))
                     if tag.local_name().as_ref() == b"then" && !reject_policy =>
@@ -243,7 +245,8 @@ impl ReadXml for Maybe<Installed> {
                     if tag.local_name().as_ref() == b"name" && name.is_none() =>
                 {
                     tracing::debug!(?tag);
-                    name = Some(reader.read_text(tag.to_end().name()).map(Name::new)?);
+                    let text = reader.read_text(tag.to_end().name())?;
+                    name = Some(Name::new(unescape(&text).map_err(quick_xml::Error::from)?));
                     tracing::debug!(?name);
                 }
                 (ResolveResult::Bound(XNM), Event::Start(tag))
